@@ -86,7 +86,7 @@ def run(ctx: Ctx) -> dict:
         return {}
     rng = random.Random(ctx.seed + 9)
     table = {gen.cc_of(r): r for r in ctx.table(env)}
-    c06.model(ctx, "{48, 57}" if ctx.quick else "{48, 53, 57}")   # invariant ComputedDigitsValidate (spec level)
+    c06.model(ctx, "{48, 57}")   # invariant ComputedDigitsValidate (spec level)
     # (i) generation and random draws in the 19 computing countries validate nationally
     ops = []
     per = 40 if ctx.quick else 1500
